@@ -630,7 +630,7 @@ impl Property for C07 {
     fn runs(&self, tier: Tier) -> usize {
         match tier {
             Tier::Quick => 40_000,
-            Tier::Thorough => 400_000,
+            Tier::Thorough => 1_000_000,
         }
     }
 
